@@ -70,7 +70,7 @@ UNICODE_SENSITIVE = ["\u20bf", "\u32ff", "\U0001fae8", "\U0001f979", "\U0001f978
 
 
 def corpus(rng, n):
-    c = {"construct": [], "rh": [], "text": [], "ask": [], "cli": []}
+    c = {"construct": [], "rh": [], "text": [], "ask": [], "cli": [], "globals": ["process-global state after the whole probe"]}
     for ver in T.VERSIONS:
         for m in V.each_choice(ver):
             for p in T.PREFIXES[ver]:
@@ -119,6 +119,12 @@ def corpus(rng, n):
                     ans = ans[:rng.randrange(len(ans) + 1)]
                 if rng.random() < 0.2:
                     ans.insert(rng.randrange(len(ans) + 1), rng.choice(["é", "ß", "\u4e2d"]))
+                if ans and rng.random() < 0.35:
+                    # blanks around an answer as copy and paste produces them; which of them an interpreter's strip()
+                    # removes is reported by the probe, not assumed
+                    k = rng.randrange(len(ans))
+                    b = rng.choice(["\xa0", "\x1c", "\x1f", "\x85", "\u2028", "\u3000", "\u180e", "\u200b", "\ufeff", "\u2009", "\x0b", "\x0c"])
+                    ans[k] = rng.choice((ans[k] + b, b + ans[k], b + ans[k] + b))
                 c["ask"].append([DLG.VERSION_ARG[vt], am, ans])
     for argv, answers in C17.cases(rng, max(40, n // 2), True):
         c["cli"].append([argv, answers])
@@ -249,7 +255,7 @@ def run(R):
         P.addset("interpreters_compared", [name])
         if tr.get("exports") != reft.get("exports") or tr.get("cvss_version") != reft.get("cvss_version"):
             P.violation("import", "C20:%s:package-exports-differ" % tag, {"interpreter": name}, observed=tr.get("exports"))
-        for sec in ("construct", "rh", "text", "ask", "cli"):
+        for sec in ("construct", "rh", "text", "ask", "cli", "globals"):
             P.ev("transcript-equal")
             for i, (a, b) in enumerate(zip(reft[sec], tr[sec])):
                 P.evaluations += 1
@@ -277,6 +283,17 @@ def run(R):
                         P.violation("transcript-equal", "C20:rh:accepted-score-spellings-follow-the-interpreter's-builtin-float",
                                     {"interpreter": name, "section": sec, "item": item}, reference=a, observed=b,
                                     float_accepts_head={"reference": fa, name: fb})
+                        continue
+                if sec == "ask":
+                    sa, sb = a.get("strip"), b.get("strip")
+                    a, b = {k: v for k, v in a.items() if k != "strip"}, {k: v for k, v in b.items() if k != "strip"}
+                    if a == b:
+                        continue
+                    if sa is not None and sb is not None and sa != sb:
+                        # the two interpreters' OWN text strip() disagree about these answers (white-space set of their
+                        # Unicode databases): finding F10, keyed by this mechanism alone
+                        P.violation("transcript-equal", "C20:ask:answer-blank-stripping-follows-the-interpreter's-unicode-database",
+                                    {"interpreter": name, "section": sec, "item": item}, reference=a, observed=b)
                         continue
                 field = first_diff(a, b)
                 key = "C20:%s:%s:%s-differs" % (tag, sec, field)
@@ -316,7 +333,7 @@ def replay(R, w):
         return
     tmp = tempfile.mkdtemp(prefix="vmon-c20-")
     try:
-        c = {"construct": [], "rh": [], "text": [], "ask": [], "cli": []}
+        c = {"construct": [], "rh": [], "text": [], "ask": [], "cli": [], "globals": []}
         c[case["section"]].append(case["item"])
         cpath = os.path.join(tmp, "c.json")
         with open(cpath, "w", encoding="utf-8") as f:
@@ -331,8 +348,8 @@ def replay(R, w):
             with open(out, encoding="utf-8") as f:
                 outs.append(json.load(f)[case["section"]][0])
         R.P.ev("transcript-equal")
-        if case["section"] == "rh":
-            outs = [{k: v for k, v in o.items() if k != "float_ok"} for o in outs]
+        if case["section"] in ("rh", "ask"):
+            outs = [{k: v for k, v in o.items() if k not in ("float_ok", "strip")} for o in outs]
         if outs[0] != outs[1]:
             R.P.violation("transcript-equal", w["key"], case, reference=outs[0], observed=outs[1])
     finally:
